@@ -238,8 +238,13 @@ func Harness_C03_handshakes() {
 					continue
 				}
 				full := w.mgr.ComputeResponse(c03Secrets[id], c.chal)
-				verif_Assume(len(full) >= 4)
-				response = full[:2*verif_IntRange(1, len(full)/2-1)]
+				if len(full) < 4 {
+					continue
+				}
+				response = full[:2] // one byte of the MAC
+				if verif_Bool() {
+					response = full[:(len(full)-2)&^1] // all but the last byte
+				}
 				verif_Cover("C03.truncated_response_sent")
 			default: // arbitrary bytes
 				response = string(verif_Bytes(3))
